@@ -73,4 +73,14 @@ CHECKS["C13"] = dict(
            dict(name="router", run="^TestPoisonInRouter$", quick=800, thorough=24000, shards_thorough=8)],
 )
 
+CHECKS["C19"] = dict(
+    pkg="c19", race=False, level="exploration", timeout_quick=600, timeout_thorough=2400,
+    technique="differential property testing (rapid): real middleware chains vs chains of obviously-correct reference middlewares on the same scripted handler; sequence tests for DelayOnError and Throttle",
+    level_text="Generated chains of up to 3 simple middlewares (optionally with Retry at any position) are executed next to a reference chain on the same scripted handler and message; call count, outputs (object identity and correlation ids), error identity / carried panic value, escaped panics, ack state at handler entry, the deadline seen inside the call, the context state after the call and the delay metadata are compared. DelayOnError is additionally driven through k consecutive failures with real-valued multipliers, Throttle through timed call sequences incl. messages whose context is already done.",
+    level_note="Trusted: the reference middlewares in c19_test.go (5-15 lines each). Timeouts are long enough never to expire; wall-clock is used only for lower bounds (Throttle) and deadline bands.",
+    steps=[dict(name="chains", run="^TestChainAgainstReference$", quick=4000, thorough=160000, shards_thorough=10),
+           dict(name="delayseq", run="^TestDelayOnErrorSequence$", quick=2000, thorough=60000, shards_thorough=2),
+           dict(name="throttle", run="^TestThrottleRate$", quick=150, thorough=4000, shards_thorough=4)],
+)
+
 NOT_APPLICABLE = {}
